@@ -140,7 +140,7 @@ class AsyncTransition(Transition):
             graph = event_data.machine.model_graphs[id(event_data.model)]
             graph.reset_styling()
             graph.set_previous_transition(self.source, self.dest)
-        await event_data.machine.get_state(self.source).exit(event_data)
+        await event_data.machine.get_model_state(event_data.model).exit(event_data)
         event_data.machine.set_state(self.dest, event_data.model)
         event_data.update(getattr(event_data.model, event_data.machine.model_attribute))
         dest = event_data.machine.get_state(self.dest)
